@@ -124,7 +124,8 @@ def make_case(family, i, rng, tier):
     if family == 'seeded' and rng.random() < 0.3:
         # a valid text message and a Ping directly in front of it, in the
         # same reads: delivered whatever the verdict on the payload is
-        case['before'] = True
+        case['before'] = rng.choice([True, True, 'binary', 'binary_frag',
+                                     'text_frag'])
     as_close = longest or (family == 'seeded' and n <= 123 and
                            rng.random() < 0.2)
     case['as'] = 'close' if as_close else 'text'
@@ -145,6 +146,10 @@ def make_case(family, i, rng, tier):
         case['offer_declined'] = rng.random() < 0.3
         case['seg'] = rng.choice(['one', 'cuts'])
         case['rest'] = rng.choice(['late', 'never'])
+        if rng.random() < 0.4:
+            # complete messages of either kind in front of it
+            case['before'] = rng.choice([True, 'binary', 'binary_frag',
+                                         'text_frag'])
     return case
 
 
@@ -164,7 +169,19 @@ def build(case):
         ws = {'compress': True}
     payload_offsets = []       # wire offset (in enc.stream) of payload byte k
     if case.get('before'):
-        ST.emit(enc, 1, BEFORE.encode('utf-8'))
+        # (the message in front is a text, a binary, or a fragmented one:
+        # whatever the parser remembered of it is gone when it is complete)
+        bf = case['before']
+        if bf == 'binary':
+            ST.emit(enc, 2, b'\x00binary in front\xff')
+        elif bf == 'binary_frag':
+            ST.emit(enc, 2, b'\x00binary in', fin=0)
+            ST.emit(enc, 0, b' front\xff')
+        elif bf == 'text_frag':
+            ST.emit(enc, 1, BEFORE.encode('utf-8')[:5], fin=0)
+            ST.emit(enc, 0, BEFORE.encode('utf-8')[5:])
+        else:
+            ST.emit(enc, 1, BEFORE.encode('utf-8'))
         ST.emit(enc, 9, b'before')
     if case.get('as') == 'close':
         ST.emit(enc, 8, b'\x03\xe8' + payload)
@@ -236,8 +253,13 @@ def execute(case):
     if case.get('before'):
         res.stats['probe:valid_message_in_front'] += 1
         first = [e for e in texts if e.snap[2] == BEFORE]
+        front = 'text'
+        if str(case['before']).startswith('binary'):
+            front = 'binary'
+            first = [e for e in tr.events if e.name == 'binary' and
+                     e.snap[2] == b'\x00binary in front\xff']
         if len(first) != 1 or 'ping' not in names or \
-                names.index('text') > names.index('ping'):
+                names.index(front) > names.index('ping'):
             res.bad('C05/%s/message_in_front_lost' % (
                 'close' if as_close else 'text'),
                 'the valid Text and the Ping in front of the payload under '
@@ -275,7 +297,8 @@ def execute(case):
                         'valid text %r: events %s, got %r' % (
                             payload[:40], names,
                             texts[0].snap[2][:20] if texts else None))
-            if 'binary' not in names:
+            if names.count('binary') < (2 if str(case.get(
+                    'before')).startswith('binary') else 1):
                 res.bad('C05/%s/message_after_valid_text_lost' % tag,
                         'events %s' % names)
     else:
@@ -289,7 +312,8 @@ def execute(case):
                     '%s payload %r: events %s' % (verdict, payload[:40], names))
         if not disc or disc[-1].snap[1]:
             res.bad('C05/%s/not_nongraceful' % tag, 'events %s' % names)
-        if 'binary' in names:
+        if names.count('binary') > (1 if str(case.get(
+                'before')).startswith('binary') else 0):
             res.bad('C05/%s/message_after_invalid_delivered' % tag,
                     'events %s' % names)
         if t_expect is not None:
